@@ -5,6 +5,10 @@ bit-vector mode): addi/subi/muli = + - *; divui/remui = floor division / remaind
 assumed non-negative: they are sizes, strides, bounds); shli = * 2^k; ori/andi only in bit-vector mode."""
 from xdsl.dialects.builtin import IndexType, IntAttr, IntegerAttr, IntegerType
 from xdsl.ir import Operation, SSAValue, den
+from pyvc.api import bv_const
+
+
+MODE = {"bv": False}  # bit-vector mode: integer-typed constants denote fixed-width words
 
 
 class ConstantOp(Operation):
@@ -12,7 +16,10 @@ class ConstantOp(Operation):
         if value_type is None:
             value_type = value.type
         self.value = value
-        self._init_op([], [value.value.data], [value_type])
+        d = value.value.data
+        if MODE["bv"] and isinstance(value_type, IntegerType):
+            d = bv_const(d, value_type.width.data)
+        self._init_op([], [d], [value_type])
 
     @staticmethod
     def from_int_and_width(value, value_type, truncate_bits=False):
